@@ -401,6 +401,59 @@ def half_bounded_family(rng, n):
     return out
 
 
+def aliasing_family(rng, n):
+    """Problems whose actions have several parameters of ONE user type and, per parameter, an effect of the same kind
+    (increase / decrease / assignment) with the same amount (optionally under the same condition) on the same fluent
+    applied to that parameter.  The ground instances include the aliasing ones (draw(o1, o1): the same object for two
+    parameters), where the substituted effects coincide syntactically: increases/decreases must accumulate (+2, not +1),
+    equal assignments are one assignment.  Bounds are tight and goals are equalities / thresholds on the counter, so
+    that +k and +2k give different verdicts.  The first problem is the canonical one (two increases of 1); the others
+    are random.  They go through the Coq models like every other problem (HandProblem)."""
+    from unified_planning.shortcuts import Fluent, Object, Problem, InstantaneousAction
+    from unified_planning.environment import Environment
+    out = []
+    for i in range(n):
+        env = Environment()
+        tm, em = env.type_manager, env.expression_manager
+        T = tm.UserType("T")
+        label = "aliasing-%d" % i
+        p = Problem(label, env)
+        objs = [Object("o%d" % (k + 1), T, env) for k in range(2)]
+        p.add_objects(objs)
+        real = i > 0 and rng.random() < 0.25
+        upper = 3 if i == 0 else rng.choice([2, 3, 4, 6])
+        lower = 0 if i == 0 else rng.choice([0, 0, -2])
+        pts = Fluent("pts", tm.RealType(F(lower), F(upper)) if real else tm.IntType(lower, upper), t=T, environment=env)
+        init = 0 if i == 0 else rng.randint(max(lower, 0), min(upper, 2))
+        p.add_fluent(pts, default_initial_value=init)
+        on = Fluent("on", tm.BoolType(), environment=env)
+        p.add_fluent(on, default_initial_value=(i == 0 or rng.random() < 0.7))
+        nact = 2 if i == 0 else rng.randint(1, 2)
+        for ai in range(nact):
+            npar = 2 if (i == 0 or rng.random() < 0.8) else 3
+            a = InstantaneousAction("act%d" % ai, _env=env, **{"p%d" % k: T for k in range(npar)})
+            kind = "inc" if (i == 0 and ai == 0) else ("dec" if i == 0 else rng.choice(["inc", "inc", "dec", "dec", "assign"]))
+            amount = 1 if i == 0 else (rng.choice([F(1, 2), F(1), F(3, 2)]) if real else rng.choice([1, 1, 2]))
+            cond = em.TRUE() if (i == 0 or rng.random() < 0.6) else (on() if rng.random() < 0.7 else em.GE(pts(a.parameters[0]), 1))
+            hit = list(a.parameters) if (i == 0 or rng.random() < 0.8) else list(a.parameters)[:2]
+            for par in hit:
+                tgt = pts(par)
+                if kind == "inc":
+                    a.add_increase_effect(tgt, amount, cond)
+                elif kind == "dec":
+                    a.add_decrease_effect(tgt, amount, cond)
+                else:
+                    a.add_effect(tgt, amount, cond)
+            if i > 0 and rng.random() < 0.3:
+                a.add_effect(on, rng.random() < 0.5)
+            p.add_action(a)
+        goal_v = 2 if i == 0 else (rng.choice([F(1, 2), F(1), F(3, 2), F(2), F(3)]) if real else rng.randint(lower, upper))
+        mk = em.Equals if (i == 0 or rng.random() < 0.6) else rng.choice([em.GE, em.LE])
+        p.add_goal(mk(pts(objs[0]), goal_v))
+        out.append(sx.HandProblem(p, label))
+    return out
+
+
 def run(ctx):
     import unified_planning as up
     from unified_planning.engines.plan_validator import SequentialPlanValidator, TimeTriggeredPlanValidator
@@ -417,7 +470,11 @@ def run(ctx):
              "lengths": {}, "time_order_differs_from_list_order": 0, "bounded_fluents": 0, "invariants": 0,
              "dropped_trivially_invalid": 0}
     nontrivial = set()
-    gens = [(hp, None) for hp in sx.corpus_problems() + corpus() + param_order_corpus() + half_bounded_family(rng, 6 if ctx.quick else 40)]
+    import random
+    alias_rng = random.Random("c04-aliasing-%s" % (rng.getstate()[1][:4],))      # derived: the other families keep their draws
+    gens = [(hp, None) for hp in sx.corpus_problems() + corpus() + param_order_corpus() + half_bounded_family(rng, 6 if ctx.quick else 40)
+            + aliasing_family(alias_rng, 4 if ctx.quick else 30)]
+    stats_alias = {"problems": 0, "aliased_instances_in_plans": 0}
     for i in range(nprob):
         gens.append((None, {"max_actions": 2}))
     for pi, (hp, knobs) in enumerate(gens):
@@ -432,6 +489,8 @@ def run(ctx):
             continue
         stats["problems"] += 1
         stats["invariants"] += len(problem.state_invariants)
+        is_alias = hp is not None and hp.label.startswith("aliasing-")
+        stats_alias["problems"] += is_alias
         for f in problem.fluents:
             t = f.type
             if (t.is_int_type() or t.is_real_type()) and (t.lower_bound is not None or t.upper_bound is not None):
@@ -488,6 +547,8 @@ def run(ctx):
             stats["raised"] += rec["raised"] is not None
             stats["lengths"][len(plan)] = stats["lengths"].get(len(plan), 0) + 1
             stats["time_order_differs_from_list_order"] += order != list(range(len(plan)))
+            if is_alias:
+                stats_alias["aliased_instances_in_plans"] += sum(len(set(insts[j][1])) < len(insts[j][1]) for j in plan)
             n = ser.names
             gplan = glist([gpair(gn(n.act(insts[j][0])), glist([ser_value(sx.arg_value(x), n) for x in insts[j][1]])) for j in plan])
             cases.append("(P%d, {| c_init := %s; c_plan := %s; c_times := %s; c_tt_valid := %s; c_seq_valid := %s |})" % (
@@ -535,6 +596,7 @@ def run(ctx):
     n_direct = direct_oracle_family(ctx, stats, 8 if ctx.quick else 60, 2 if ctx.quick else 3)
     if not ok_proofs:
         ctx.proof_broken()
+    stats["aliasing_family"] = stats_alias
     stats["valid_ratio"] = round(stats["tt_valid"] / max(1, stats["plans"]), 3)
     ctx.finish({
         "evaluations": len(cases) + n_direct,
